@@ -125,7 +125,7 @@ func c06FirstNameLoop(fd *ast.FuncDecl) (*c06NameLoop, error) {
 	return res, nil
 }
 
-func leanBytesList(xs []string) string {
+func svcLeanBytesList(xs []string) string {
 	parts := make([]string, len(xs))
 	for i, x := range xs {
 		parts[i] = leanBytes(x)
@@ -162,11 +162,11 @@ func init() {
 		var b strings.Builder
 		b.WriteString("namespace Qryn.Gen.ServiceNames\n")
 		fmt.Fprintf(&b, "/-- otlpGetServiceNames (writer), local name: %q -/\n", w.names)
-		fmt.Fprintf(&b, "def writerAttrs : List (List UInt8) :=\n  %s\n", leanBytesList(w.names))
+		fmt.Fprintf(&b, "def writerAttrs : List (List UInt8) :=\n  %s\n", svcLeanBytesList(w.names))
 		fmt.Fprintf(&b, "/-- the writer's loop leaves at its first hit (`break`) -/\ndef writerFirst : Bool := %v\n", w.hasBreak)
 		fmt.Fprintf(&b, "/-- %q -/\ndef writerDefault : List UInt8 := %s\n", w.dflt, leanBytes(w.dflt))
 		fmt.Fprintf(&b, "/-- parseOTLP (reader): %q -/\n", r.names)
-		fmt.Fprintf(&b, "def readerAttrs : List (List UInt8) :=\n  %s\n", leanBytesList(r.names))
+		fmt.Fprintf(&b, "def readerAttrs : List (List UInt8) :=\n  %s\n", svcLeanBytesList(r.names))
 		fmt.Fprintf(&b, "def readerFirst : Bool := %v\n", r.hasBreak)
 		fmt.Fprintf(&b, "/-- %q -/\ndef readerDefault : List UInt8 := %s\n", r.dflt, leanBytes(r.dflt))
 		b.WriteString("end Qryn.Gen.ServiceNames\n")
